@@ -40,7 +40,7 @@ DenArgs(pr, prov, nd) == [k \in 1..Len(nd.inputs) |->
                             <<nd.inputs[k], PairGet(nd.pmap, nd.inputs[k]), DenArg(pr, prov, nd, nd.inputs[k])>>]
 
 DenVal(pr, prov, o) ==
-  LET nd == pr.nodes[FirstProducer(pr, o)] IN BodyVal(nd, o, DenArgs(pr, prov, nd))
+  LET nd == pr.nodes[FirstProducer(pr, o)] IN BodyVal(nd, nd.olabels[IndexOf(nd.outputs, o)], DenArgs(pr, prov, nd))
 
 Denote(pr, prov) ==
   [o \in {o \in Outputs(pr) : CanRun(pr, prov, FirstProducer(pr, o))
@@ -293,10 +293,32 @@ C04Aux(job) ==
   IN [ cnt |-> ref.cnt,
        env |-> [o \in {o \in Outputs(pr) : o \in DOMAIN ref.env /\ ref.env[o] # Sent} |-> ref.env[o]] ]
 
+(***************************************************************************)
+(* C05 -- composition.  job.flat is the flat program of which job.prog is  *)
+(* a nesting (harness/gen.py nest): same leaves, same outer interface.     *)
+(* The nested run must return the flat run's values (restricted to what    *)
+(* the nesting exposes) and every leaf function must receive the same      *)
+(* arguments.                                                              *)
+(***************************************************************************)
+LeafCalls(calls) == SelectSeq(calls, LAMBDA c : c.kind # "graph")
+ArgsBag(calls, n) == LET cs == SelectSeq(LeafCalls(calls), LAMBDA c : c.node = n)
+                     IN [k \in 1..Len(cs) |-> cs[k].args]
+C05(job) ==
+  LET rn == RunOf(job)
+      rf == RunProg(job.flat, "", job.provided, WorldOf(job), job.mode)
+      vn == FilterOut(job.prog, rn.vals, job.select)
+      vf == FilterOut(job.flat, rf.vals, job.select)
+      leaves == {c.node : c \in {rf.calls[k] : k \in 1..Len(rf.calls)}}
+  IN [ status |-> rn.status = rf.status,
+       values |-> (rn.status = "completed") => (DOMAIN vn \subseteq DOMAIN vf /\ \A k \in DOMAIN vn : vn[k] = vf[k]),
+       exposed |-> (rn.status = "completed") => \A k \in DOMAIN vf : (k \in Names(job.hidden) \/ k \in DOMAIN vn),
+       args   |-> (rn.status = "completed") => \A n \in leaves : ArgsBag(rn.calls, n) = ArgsBag(rf.calls, n) ]
+
 \* dispatch used by the Predict_* configurations
 L1(prop, job) == CASE prop = "C01" -> C01(job)
                    [] prop = "C03" -> C03(job)
                    [] prop = "C04" -> C04(job)
+                   [] prop = "C05" -> C05(job)
                    [] prop = "C17" -> C17(job)
                    [] prop = "C16" -> C16(job)
                    [] prop = "C11" -> C11(job)
